@@ -45,10 +45,11 @@ func isSelf(e M) bool { return e != nil && opOf(e) == "SELF" }
 var unaryNames = map[string]string{"SELECT": "select", "MAP": "map", "FILTER": "filter", "HAS": "has", "ANY_CONDITION": "any_c",
 	"ALL_CONDITION": "all_c", "UNIQUE_BY": "unique_by", "GROUP_BY": "group_by", "WITH_ENTRIES": "with_entries", "JOIN": "join",
 	"SPLIT": "split", "SORT_BY": "sort_by", "MAP_VALUES": "map_values", "DELETE_CHILD": "del", "PICK": "pick", "OMIT": "omit",
-	"SORT_KEYS": "sort_keys", "EXPLODE": "explode", "WITH": "with"}
+	"SORT_KEYS": "sort_keys", "EXPLODE": "explode", "WITH": "with", "DEL_PATHS": "delpaths"}
 var nullaryNames = map[string]string{"LENGTH": "length", "KEYS": "keys", "REVERSE": "reverse", "UNIQUE": "unique", "ANY": "any", "ALL": "all",
 	"TO_ENTRIES": "to_entries", "FROM_ENTRIES": "from_entries", "NOT": "not", "SORT": "sort", "MIN": "min", "MAX": "max",
-	"GET_PATH": "path", "GET_KEY": "key", "GET_PARENT": "parent"}
+	"GET_PATH": "path", "GET_KEY": "key", "GET_PARENT": "parent",
+	"GET_TAG": "tag", "GET_KIND": "kind", "TO_STRING": "to_string", "TO_NUMBER": "to_number", "PIVOT": "pivot"}
 var binaryNames = map[string]string{"PIPE": "|", "SHORT_PIPE": "|", "UNION": ",", "ADD": "+", "SUBTRACT": "-", "MULTIPLY": "*", "DIVIDE": "/",
 	"MODULO": "%", "EQUALS": "==", "NOT_EQUALS": "!=", "AND": "and", "OR": "or", "ALTERNATIVE": "//",
 	"ADD_ASSIGN": "+=", "SUBTRACT_ASSIGN": "-=", "MULTIPLY_ASSIGN": "*="}
@@ -126,6 +127,8 @@ func exprText(e M) string {
 			sym = "|="
 		}
 		return "(" + exprText(sub(e, "l")) + " " + sym + " " + exprText(sub(e, "r")) + ")"
+	case "SET_PATH":
+		return "setpath(" + exprText(sub(e, "l")) + "; " + exprText(sub(e, "r")) + ")"
 	case "REDUCE":
 		av, blk := sub(e, "l"), sub(e, "r")
 		return "(" + exprText(sub(av, "l")) + " as $" + sub(av, "r")["name"].(string) + " ireduce (" + exprText(sub(blk, "l")) + "; " + exprText(sub(blk, "r")) + "))"
